@@ -52,4 +52,16 @@ def verdict (w : WSt) : WSt × List Viol :=
       else ["C09 unknown-class"]
     ({ w with c09 := none }, vs)
 
+/-- C08: the endpoint panicked -/
+def panicked : List Viol := ["C08 panic-in-the-endpoint"]
+
+/-- C08: a poll of the connection task that returned Pending.  `selfWoken`: it woke its own task while
+    running; `progress`: it wrote something, consumed input or changed its state.  A task that keeps
+    waking itself without progress spins for ever. -/
+def polled (w : WSt) (selfWoken progress : Bool) : WSt × List Viol :=
+  if selfWoken && !progress then
+    let n := w.idleSelfWakes + 1
+    ({ w with idleSelfWakes := n }, if n ≥ 4 then ["C08 connection-task-wakes-itself-without-progress"] else [])
+  else ({ w with idleSelfWakes := 0 }, [])
+
 end H2V.Spec.Verdict
